@@ -190,12 +190,13 @@ class SharedFutureSuite(Suite):
 
     def gen_cases(self, rng, tier):
         fixed = [make_case(T, m, a, th, random_sched(rng, len(th), rng.randint(0, 10 * len(th)))) for T, m, a, th in fixed_shapes()
-                 for _ in range(2 if tier == "quick" else 12)]
+                 for _ in range(4 if tier == "quick" else 20)]
         if tier == "quick":
-            return fixed + gen_random(rng, 1100)
-        ex2 = gen_exhaustive(rng, [s for s in fixed_shapes() if len(s[3]) == 2][::3], 9, 2)
-        ex3 = gen_exhaustive(rng, small_shapes(rng, 8, 1), 8, 3)
-        return fixed + gen_random(rng, 14000) + gen_random(rng, 3000, maxlen=8) + ex2 + ex3
+            ex2 = gen_exhaustive(rng, [s for s in fixed_shapes() if len(s[3]) == 2][::9], 7, 2)
+            return fixed + gen_random(rng, 6000) + ex2
+        ex2 = gen_exhaustive(rng, [s for s in fixed_shapes() if len(s[3]) == 2][::2], 10, 2)
+        ex3 = gen_exhaustive(rng, small_shapes(rng, 10, 1), 8, 3)
+        return fixed + gen_random(rng, 90000) + gen_random(rng, 15000, maxlen=8) + ex2 + ex3
 
     def oracle(self, case, out):
         i = parse(case, out)
